@@ -1,9 +1,10 @@
 #!/bin/bash
-# usage: .scratch/buildfam.sh <outname> <extra go files...>
+# usage: [VERIF_REPO=/some/repo/copy] .scratch/buildfam.sh <outname> <extra go files...>
 # builds a private harness binary .cache/h_<outname> from harness/cmd/h/main.go + common_msg.go + the given files
 # (compiled inside /repo's module through -overlay; nothing is written to /repo)
 set -e
 cd /work/w2e
+export REPO=${VERIF_REPO:-/repo}
 name=$1; shift
 ov=.cache/overlay_$name.json
 python3 - "$name" "$@" > $ov <<'PY'
@@ -12,9 +13,9 @@ name = sys.argv[1]
 files = ["harness/cmd/h/main.go", "harness/cmd/h/common_msg.go"] + sys.argv[2:]
 rep = {}
 for f in files:
-    rep["/repo/internal/verifh_%s/cmd/h/%s" % (name, os.path.basename(f))] = os.path.abspath(f)
+    rep[os.environ["REPO"] + "/internal/verifh_%s/cmd/h/%s" % (name, os.path.basename(f))] = os.path.abspath(f)
 print(json.dumps({"Replace": rep}))
 PY
 export GOLANG_PROTOBUF_REGISTRATION_CONFLICT=ignore GOFLAGS=-mod=mod GOPROXY=off GOSUMDB=off GOTOOLCHAIN=local GOCACHE=/work/w2e/.cache/go-build CGO_ENABLED=0
-cd /repo && go build -overlay /work/w2e/$ov -tags verif -o /work/w2e/.cache/h_$name ./internal/verifh_$name/cmd/h
+cd $REPO && go build -overlay /work/w2e/$ov -tags verif -o /work/w2e/.cache/h_$name ./internal/verifh_$name/cmd/h
 echo built /work/w2e/.cache/h_$name
